@@ -45,6 +45,9 @@ class ThreadEngine(Engine):
         {'progs': [[['call', 0, ''], ['call', 1, 's1'], ['read']], [['call', 0, 's2'], ['call', 1, 's1/s2']]],
          'schedule': [0] * k + [1] * 120 + [0] * 200} for k in range(0, 70, 2)
     ] + [
+        {'progs': [[['call', 0, 's1', 'pq'], ['read']], [['call', 0, 's1', '']]],
+         'schedule': [0] * k + [1] * 120 + [0] * 300} for k in range(0, 90, 2)
+    ] + [
         {'progs': [[['singleton', 'sa'], ['read']], [['call', 0, 's2'], ['singleton', 'sa']]],
          'schedule': [0] * k + [1] * 120 + [0] * 200} for k in range(0, 30, 3)
     ]
@@ -54,7 +57,7 @@ class ThreadEngine(Engine):
     for _ in range(rng.randint(1, 4)):
       r = rng.random()
       if r < 0.45:
-        acts.append(['call', rng.randrange(2), rng.choice(SCOPES)])
+        acts.append(['call', rng.randrange(2), rng.choice(SCOPES), rng.choice(['', '', 'p', 'q', 'pq'])])
       elif r < 0.7:
         acts.append(['read'])
       else:
@@ -89,8 +92,10 @@ class ThreadEngine(Engine):
   def to_coq(self, case):
     def act(a):
       if a[0] == 'call':
+        sup = a[3] if len(a) > 3 else ''
+        vals = [(p, v) for p, v in self.VALS[a[1]] if p not in sup]
         return '(ACall (%s, %s) %s)' % (C.cstr(a[2]), C.cstr('m.f%d' % a[1]),
-                                        C.clist(['(%s, %s)' % (C.cstr(p), C.cz(v)) for p, v in self.VALS[a[1]]]))
+                                        C.clist(['(%s, %s)' % (C.cstr(p), C.cz(v)) for p, v in vals]) if vals else '(@nil (string * Z))')
       if a[0] == 'read':
         return 'ARead'
       return '(ASingleton %s)' % C.cstr(a[1])
@@ -134,8 +139,9 @@ class ThreadEngine(Engine):
       def body():
         for a in prog:
           if a[0] == 'call':
+            sup = a[3] if len(a) > 3 else ''
             with gin.config_scope(a[2] or None):
-              fns[a[1]]()
+              fns[a[1]](**{k: 99 for k in sup})
           elif a[0] == 'read':
             reads.append(gin.operative_config_str())
           else:
@@ -160,6 +166,8 @@ class ThreadEngine(Engine):
       errors = s.run()
       trace = s.trace
     oper = {(k[0], k[1], p): v for k, d in gin.config._OPERATIVE_CONFIG.items() for p, v in d.items()}  # pylint: disable=protected-access
+    for k in gin.config._OPERATIVE_CONFIG:  # pylint: disable=protected-access
+      oper[(k[0], k[1], None)] = True     # the section itself (it may hold no parameter)
     return errors, reads, built, got, oper, trace
 
   def impl(self, case):
